@@ -65,6 +65,7 @@ func exprPrelude() []Stat {
 		Local1("nc", Num(0)),
 		LocalFunc("f1", Func(nil, false, Assign1(Name("nc"), Bin("+", Name("nc"), Num(1))), Emit(Str("f1"), Name("nc")), Return(Num(9)))),
 		LocalFunc("f3", Func(nil, false, Assign1(Name("nc"), Bin("+", Name("nc"), Num(1))), Emit(Str("f3"), Name("nc")), Return(Num(1), Num(2), Num(3)))),
+		LocalFunc("fid", Func(names("v"), false, Assign1(Name("nc"), Bin("+", Name("nc"), Num(1))), Emit(Str("fid"), Name("nc"), Name("v")), Return(Name("v")))),
 	}
 }
 
@@ -262,6 +263,9 @@ func exprLeaves() []leaf {
 		{"f3()", func() Expr { return CallN("f3") }},
 		{"...", func() Expr { return Vararg() }},
 		{"(f3())", func() Expr { return Paren(CallN("f3")) }},
+		// calls whose argument is the very local most destinations store into
+		{"fid(la)", func() Expr { return CallN("fid", Name("la")) }},
+		{"(fid(la))", func() Expr { return Paren(CallN("fid", Name("la"))) }},
 	}
 }
 
@@ -340,6 +344,10 @@ func exprSurrounds() []surround {
 		}},
 		{"pageturn", func(b []Stat) []Stat {
 			return append([]Stat{Local1("q", TableE()), NumFor("ii", Num(1), Num(40), nil, Assign1(Index(Name("q"), Name("ii")), Bin("+", Name("ii"), Num(0.5))))}, b...)
+		}},
+		{"params", func(b []Stat) []Stat {
+			// the operands and the destination `la` are parameters of the function (la the last one)
+			return []Stat{LocalFunc("inner", Func(names("ls", "ltab", "lnil", "lk", "la"), true, b...)), Return(CallN("inner", Name("ls"), Name("ltab"), Name("lnil"), Name("lk"), Name("la"), Vararg()))}
 		}},
 	}
 }
